@@ -168,6 +168,23 @@ def pool():
     def leaky_d(X, slope: float = 0.1):
         return op21.LeakyRelu(X, alpha=slope)
 
+    # declared defaults that are FALSY and differ from the operator's own default (LeakyRelu alpha 0.01, Elu alpha 1.0,
+    # Flatten axis 1): dropping the default while inlining silently falls back to the operator's default
+    @script(dom)
+    def leaky_z(X, slope: float = 0.0):
+        return op21.LeakyRelu(X, alpha=slope)
+
+    @script(dom)
+    def elu_z(X, alpha: float = 0.0):
+        return op21.Elu(X, alpha=alpha)
+
+    @script(dom)
+    def flat_sum(X, ax: int = 0):
+        f = op21.Flatten(X, axis=ax)
+        one = op21.Constant(value_ints=[1])
+        s = op21.ReduceSum(f, one, keepdims=0)
+        return op21.Add(X, s)
+
     @script(dom)
     def withif(X, Y):
         t = op21.Add(X, Y)
@@ -289,6 +306,9 @@ def pool():
         Fn("scaled_d", scaled_d, "script", lambda a, x: ((x * f32(a["alpha"])).astype(f32),), attrs={"alpha": [0.5, 1.5, -3.0]}),
         Fn("scaled_n", scaled_n, "script", lambda a, x: (np.tanh(x * f32(a["alpha"])).astype(f32),), attrs={"alpha": [0.5, 2.0]}),
         Fn("leaky_d", leaky_d, "script", lambda a, x: (_leaky(x, a["slope"]),), attrs={"slope": [0.3, 0.01]}),
+        Fn("leaky_z", leaky_z, "script", lambda a, x: (_leaky(x, a["slope"]),), attrs={"slope": [0.0, 0.3]}),
+        Fn("elu_z", elu_z, "script", lambda a, x: (np.where(x >= 0, x, f32(a["alpha"]) * (np.exp(x) - f32(1.0))).astype(f32),), attrs={"alpha": [0.0, 1.5]}),
+        Fn("flat_sum", flat_sum, "script", lambda a, x: ((x + (x.sum(dtype=f32) if int(a["ax"]) == 0 else x)).astype(f32),), attrs={"ax": [0, 1]}),
         Fn("withif", withif, "script", np_withif),
         Fn("ifattr", ifattr, "script", np_ifattr, attrs={"alpha": [0.5, 3.0]}),
         Fn("withloop", withloop, "script", np_withloop, attrs={"n": [1, 2, 4]}),
@@ -349,6 +369,13 @@ def directed():
         out.append(P(f, calls=[C([V(0)], attrs={k: v})]))
         out.append(P(f, calls=[C([V(1)])]))
     out.append(P("ifattr", calls=[C([V(0)], attrs={"alpha": 0.5}, scope="mlp", prefix="q", outnames=["r"])], where="then"))
+    # falsy declared defaults (0.0 / 0), omitted at the call site, supplied falsy, supplied truthy
+    for f, k, v in (("leaky_z", "slope", 0.3), ("elu_z", "alpha", 1.5), ("flat_sum", "ax", 1)):
+        out.append(P(f, calls=[C([V(0)])]))
+        out.append(P(f, calls=[C([V(1)], scope="enc", prefix="p")]))
+        out.append(P(f, calls=[C([V(0)], attrs={k: v})]))
+        out.append(P(f, calls=[C([V(0)], attrs={k: type(v)(0)})]))
+    out.append(P("leaky_z", calls=[C([V(0)], outnames=["r"])], where="then"))
     # literal / None / fewer actuals
     out.append(P("mul_add_relu", calls=[C([V(0), ("lit", 3.0)])]))
     out.append(P("twice_minus", calls=[C([V(1), ("lit", 0.5)], scope="enc")]))
